@@ -191,11 +191,11 @@ func runHTTP(r *vcommon.Run) {
 			}
 		}
 	} else {
-		// H1 (decision): exclude x action/protocol x path x every answer x 3 placements x 1 IP
+		// H1 (decision): exclude x action/protocol x path x every answer x 2 placements (none, token field) x 1 IP
 		for e := range httpExcludes {
 			for _, ap := range aps {
 				for _, p := range paths {
-					for _, pl := range pls[:3] {
+					for _, pl := range []placement{pls[0], pls[2]} {
 						for a := range answers {
 							cases = append(cases, httpCase{e, ap, p, pl, clientIPs[0], a})
 						}
@@ -274,6 +274,7 @@ func runHTTP(r *vcommon.Run) {
 				r.Violation("http-excluded-reached-server", desc+": excluded request was sent to the auth server", replay)
 			}
 			r.Distinct(fmt.Sprintf("http excluded excl=%d %s", c.excl, c.ap.action))
+			count(fmt.Sprintf("http/excluded/admitted=%v", admitted))
 			return
 		}
 
@@ -339,6 +340,7 @@ func runHTTP(r *vcommon.Run) {
 			cls = "dc"
 		}
 		r.Distinct(fmt.Sprintf("http decision %s %s admitted=%v", a, cls, admitted))
+		count(fmt.Sprintf("http/expected=%s/admitted=%v", cls, admitted))
 		r.Distinct(fmt.Sprintf("http post %s/%s creds=%s ip=%s", c.ap.action, c.ap.proto, c.pl.name, c.ip.name))
 		if i%9973 == 0 {
 			r.Sample(replay)
